@@ -444,14 +444,44 @@ def main(tier):
     only = os.environ.get("VERIF_C09_ONLY")        # development aid: run the configurations whose name contains this text
     if only:
         cfgs = [c for c in cfgs if only in c["name"]] or cfgs
-    results = list(common.fork_map(_cfg_worker, [(progs, c, tmo, deadline) for c in cfgs], min(len(cfgs), 4)))
+    # part (b): the emitted x86-64 of the atomic intrinsics is one indivisible instruction (vsym/checks/c09b.py),
+    # decided concurrently with the protocol configurations
+    items = [("cfg", (progs, c, tmo, deadline)) for c in cfgs] + ([] if only else [("partb", tier)])
+
+    def work(item):
+        if item[0] == "partb":
+            from . import c09b
+            try:
+                return {"partb": c09b.run(item[1])}
+            except Inconclusive as e:
+                return {"partb_inconclusive": str(e)}
+        return _cfg_worker(item[1])
+    allres = list(common.fork_map(work, items, min(len(items), 5)))
+    bres = {}
+    results = []
+    for r in allres:
+        if "partb" in r:
+            bres["out"] = r["partb"]
+        elif "partb_inconclusive" in r:
+            bres["inconclusive"] = r["partb_inconclusive"]
+        else:
+            results.append(r)
     if "inconclusive" in results[0]:
         raise Inconclusive(results[0]["inconclusive"])
     incon = [r["inconclusive"] for r in results if "inconclusive" in r]
     results = [r for r in results if "inconclusive" not in r]
     states = sum(r["nodes"] for r in results)
     trans = sum(r["edges"] for r in results)
+    b = bres.get("out")
+    b_problem = bres.get("inconclusive")
+    if b is not None:
+        for v in b["violations"]:
+            rep.violation(v["key"], v["what"], v["replay"])
+        if b["unsupported"] or b["inconclusive"]:
+            b_problem = "; ".join(b["unsupported"] + b["inconclusive"])[:600]
     nq, undecided, bounded = BC.judge(results, rep, "sync", lambda r: r["cfg"]["name"])
+    if b_problem and not rep.new and not only:
+        raise Inconclusive("part (b), atomic intrinsics as emitted code: " + b_problem)
     core = results[0]
     cov = {
         "states": states, "transitions": trans,
@@ -462,8 +492,11 @@ def main(tier):
         "configurations_inconclusive": incon,
         "functions_encoded": sorted(set(f for r in results for f in r["fns"])), "models_used": core["models"], "queries": nq,
         "undecided_or_bounded": undecided + bounded,
+        "part_b_atomic_intrinsics_as_emitted_code": ({k: b[k] for k in ("kernels", "verdict_queries", "verdict_queries_undecided", "translator_validation_runs",
+                                                                        "wall_s") if k in b} if b else None),
+        "part_b_verdicts": ([{"kernel": v["kernel"], "backend": v["backend"], "status": v["status"], "shape_ok": v["shape_ok"]} for v in b["verdicts"]] if b else None),
         "bounds": "thread roles per configuration; every schedule of at most K steps; 'unfinished-at-K' unsat certifies that K covers all complete executions",
-        "outside_the_claim": ["atomic intrinsics as emitted machine code (single locked instruction)", "the address-keyed table itself (abstracted to a two-key map)",
+        "outside_the_claim": ["the address-keyed table itself (abstracted to a two-key map)",
                               "collections moving the mutex/condition objects while threads are queued", "spawn", "more than 3 threads",
                               "park/unpark around blocking (C04)", "Mutex::lock[T] wrapper (generic closure call) — its body lock_op; fct(); unlock_op is what the drivers do"],
     }
